@@ -44,6 +44,60 @@ type Op struct {
 	Flag  bool     `json:"flag"` // start: finalized; update: strict
 	Hash  uint64   `json:"hash"` // add: snapshot hash (small)
 	Txs   []uint64 `json:"txs"`
+	// store fault injected into this transition: the named storage.Store call fails
+	// once (ReadRound|ReadLink|StartNewRound|UpdateEmptyHeadRound), after FaultAt
+	// successful calls of the same name
+	Fault   string `json:"fault,omitempty"`
+	FaultAt int    `json:"fault_at,omitempty"`
+}
+
+// faultStore decorates the real store handed to the kernel: one chosen call
+// returns an error instead of reaching Badger.
+type faultStore struct {
+	storage.Store
+	arm  string
+	skip int
+	hit  bool
+}
+
+func (f *faultStore) trip(name string) error {
+	if f.arm != name {
+		return nil
+	}
+	if f.skip > 0 {
+		f.skip--
+		return nil
+	}
+	f.arm, f.hit = "", true
+	return fmt.Errorf("injected store fault at %s", name)
+}
+
+func (f *faultStore) ReadRound(h crypto.Hash) (*common.Round, error) {
+	if err := f.trip("ReadRound"); err != nil {
+		return nil, err
+	}
+	return f.Store.ReadRound(h)
+}
+
+func (f *faultStore) ReadLink(from, to crypto.Hash) (uint64, error) {
+	if err := f.trip("ReadLink"); err != nil {
+		return 0, err
+	}
+	return f.Store.ReadLink(from, to)
+}
+
+func (f *faultStore) StartNewRound(node crypto.Hash, number uint64, references *common.RoundLink, finalStart uint64) error {
+	if err := f.trip("StartNewRound"); err != nil {
+		return err
+	}
+	return f.Store.StartNewRound(node, number, references, finalStart)
+}
+
+func (f *faultStore) UpdateEmptyHeadRound(node crypto.Hash, number uint64, references *common.RoundLink) error {
+	if err := f.trip("UpdateEmptyHeadRound"); err != nil {
+		return err
+	}
+	return f.Store.UpdateEmptyHeadRound(node, number, references)
 }
 
 type Case struct {
@@ -91,6 +145,7 @@ type known struct {
 type world struct {
 	dir    string
 	store  *storage.BadgerStore
+	fs     *faultStore // what the kernel sees
 	ids    []crypto.Hash
 	chains []*kernel.Chain
 	finals [][]known // final rounds the harness has seen created, per chain
@@ -210,7 +265,7 @@ func newWorld(c *vh.Ctx, cs Case, tbl *[]string) (*world, string) {
 	if err != nil {
 		panic(err)
 	}
-	w := &world{dir: dir, store: store, lastGood: map[int]crypto.Hash{}}
+	w := &world{dir: dir, store: store, fs: &faultStore{Store: store}, lastGood: map[int]crypto.Hash{}}
 	idr := vh.NewRand(cs.Seed, "c20ids")
 	for i := 0; i < cs.K; i++ {
 		var id crypto.Hash
@@ -249,7 +304,7 @@ func newWorld(c *vh.Ctx, cs Case, tbl *[]string) (*world, string) {
 		caches[i].Timestamp = f.Start + gap + 1
 		caches[i].References = refs.Copy()
 	}
-	_, w.chains = kernel.VerifC20NewNode(store, w.ids, cs.Genesis, finals, caches)
+	_, w.chains = kernel.VerifC20NewNode(w.fs, w.ids, cs.Genesis, finals, caches)
 	var chains []string
 	for i := range w.ids {
 		chains = append(chains, vh.App("mk_chain", nN(w.ids[i]), coqFinal(finals[i]), coqCache(caches[i], true), "(@nil (N * N))"))
@@ -339,6 +394,16 @@ func run(c *vh.Ctx, cs Case) {
 		}
 		ts := final0.Start + op.Dt
 		class := ""
+		// the state a restart would load if this transition fail-stops
+		var preFinals []*kernel.FinalRound
+		var preCaches []*kernel.CacheRound
+		if op.Fault != "" {
+			for _, chn := range w.chains {
+				f, ca, _ := chn.VerifC20State()
+				preFinals, preCaches = append(preFinals, f), append(preCaches, ca)
+			}
+		}
+		faultHit := false
 		switch op.Kind {
 		case "add":
 			s := &common.Snapshot{Version: common.SnapshotVersionCommonEncoding, NodeId: id, RoundNumber: cache0.Number,
@@ -372,12 +437,21 @@ func run(c *vh.Ctx, cs Case) {
 			var err error
 			var nf *kernel.FinalRound
 			var dummy, pan bool
+			if op.Fault != "" {
+				w.fs.arm, w.fs.skip, w.fs.hit = op.Fault, op.FaultAt, false
+			}
 			if op.Kind == "start" {
 				pan, _ = vh.Catch(func() { _, nf, dummy, err = ch.VerifC20Start(&common.RoundLink{Self: self, External: ext}, ts, op.Flag) })
 				ops = append(ops, coqOp("OStart", id, self, ext, ts, op.Flag, sanity))
 			} else {
 				pan, _ = vh.Catch(func() { err = ch.VerifC20UpdateEmptyHead(&common.RoundLink{Self: self, External: ext}, ts, op.Flag) })
 				ops = append(ops, coqOp("OUpdate", id, self, ext, ts, op.Flag, sanity))
+			}
+			w.fs.arm = ""
+			faultHit = w.fs.hit
+			w.fs.hit = false
+			if faultHit {
+				c.Count("fault-" + op.Fault + map[bool]string{true: "-failstop", false: "-returned"}[pan])
 			}
 			switch {
 			case pan:
@@ -394,7 +468,12 @@ func run(c *vh.Ctx, cs Case) {
 			dump1, _, _ := w.dump(c, cs)
 			switch class {
 			case "2":
-				fail("transition-panics", op.Kind+" panicked")
+				if !faultHit {
+					fail("transition-panics", op.Kind+" panicked")
+				} else if dump0 != dump1 {
+					// fail-stop on a store fault is allowed, but the store must be untouched
+					fail("failstop-changes-durable", "a "+op.Kind+" that stopped on a store fault had already changed ROUND/LINK records")
+				}
 			case "1":
 				if dump0 != dump1 {
 					fail("reject-changes-durable", "a rejected "+op.Kind+" changed ROUND/LINK records")
@@ -405,6 +484,9 @@ func run(c *vh.Ctx, cs Case) {
 					}
 				}
 			default:
+				if faultHit {
+					fail("store-fault-ignored", "a "+op.Kind+" reported success although its "+op.Fault+" call failed")
+				}
 				accepted++
 				if op.Kind == "start" {
 					want := roundHash(id, cache0.Number, cache0.Snapshots, &tbl)
@@ -469,7 +551,12 @@ func run(c *vh.Ctx, cs Case) {
 			}
 		}
 		classes = append(classes, class)
-		if class == "2" {
+		if class == "2" && faultHit {
+			// fail-stop: the process restarts and loads its state from the store (which the
+			// failed call left untouched): round states as before the call, links re-read
+			_, w.chains = kernel.VerifC20NewNode(w.fs, w.ids, cs.Genesis, preFinals, preCaches)
+			ch = w.chains[ci]
+		} else if class == "2" {
 			dead = true
 			break
 		}
@@ -512,6 +599,13 @@ func run(c *vh.Ctx, cs Case) {
 	sort.Strings(tbl)
 	tbl = dedup(tbl)
 	key, _ := jsonKey(cs)
+	for _, op := range cs.Ops {
+		if op.Fault != "" {
+			// histories with injected store faults are checked by the oracle only
+			c.Case(cs.Kind, key, accepted >= 2, cs, "")
+			return
+		}
+	}
 	c.Case(cs.Kind, key, accepted >= 2, cs,
 		vh.App("CHist", init, vh.List(tbl, "(hin * N)"), vh.List(ops, "op"), vh.List(classes, "N"),
 			vh.List(rounds, "(N * round_rec)"), vh.List(links, "((N * N) * N)"), vh.List(mem, "chain_obs")))
@@ -593,6 +687,70 @@ func genHistory(c *vh.Ctx) Case {
 	return cs
 }
 
+// mostly valid transitions, a third of them with a store fault at one of the calls
+// the transition makes
+func genFaultHistory(c *vh.Ctx) Case {
+	r := c.Rng
+	k := r.Range(2, 4)
+	cs := Case{Kind: "fault-history", K: k, Seed: r.U64(), Base: 1700000000000000000 + r.U64()%1000000000000000}
+	for i := 0; i < k; i++ {
+		cs.Genesis = append(cs.Genesis, true)
+	}
+	nextHash := uint64(1)
+	for i, n := 0, r.Range(6, 24); i < n; i++ {
+		ch := r.Intn(k)
+		other := (ch + 1 + r.Intn(k-1)) % k
+		switch r.Intn(7) {
+		case 0, 1, 2:
+			cs.Ops = append(cs.Ops, Op{Kind: "add", Chain: ch, Dt: gap + 2 + r.U64()%(gap-4), Hash: nextHash, Txs: []uint64{5000 + nextHash}})
+			nextHash++
+		case 3, 4:
+			op := Op{Kind: "start", Chain: ch, Self: Ref{Kind: "good"}, Ext: Ref{Kind: "final", Chain: other}, Dt: 2*gap + r.U64()%gap, Flag: r.Chance(2, 3)}
+			if r.Chance(1, 6) {
+				op.Ext = Ref{Kind: "unknown", Salt: r.U64()} // dummy path on the finalized side
+			}
+			if r.Chance(1, 2) {
+				op.Fault = []string{"ReadRound", "ReadLink", "StartNewRound"}[r.Intn(3)]
+			}
+			cs.Ops = append(cs.Ops, op)
+		default:
+			op := Op{Kind: "update", Chain: ch, Self: Ref{Kind: "cur"}, Ext: Ref{Kind: "final", Chain: other}, Dt: 2*gap + r.U64()%gap, Flag: r.Chance(1, 4)}
+			if r.Chance(1, 2) {
+				op.Fault = []string{"ReadRound", "ReadLink", "UpdateEmptyHeadRound"}[r.Intn(3)]
+			}
+			cs.Ops = append(cs.Ops, op)
+		}
+	}
+	return cs
+}
+
+func faultCorpus() []Case {
+	b := uint64(1700000000000000000)
+	g := []bool{true, true, true}
+	add := func(ch int, h uint64) Op { return Op{Kind: "add", Chain: ch, Dt: gap + 10 + h, Hash: h, Txs: []uint64{5000 + h}} }
+	fin := func(ch, back int) Ref { return Ref{Kind: "final", Chain: ch, Back: back} }
+	start := func(ch int, ext Ref, f string) Op {
+		return Op{Kind: "start", Chain: ch, Self: Ref{Kind: "good"}, Ext: ext, Dt: 2 * gap, Flag: true, Fault: f}
+	}
+	upd := func(ch int, ext Ref, f string) Op {
+		return Op{Kind: "update", Chain: ch, Self: Ref{Kind: "cur"}, Ext: ext, Dt: 2 * gap, Fault: f}
+	}
+	var out []Case
+	// chain 1 advances; chain 0 moves its empty head forward to it with a store fault at each
+	// call, then for real; then the same for a round start of chain 0
+	for i, f := range []string{"UpdateEmptyHeadRound", "ReadRound", "ReadLink"} {
+		out = append(out, Case{Kind: "fault-corpus", K: 3, Seed: uint64(20 + i), Base: b, Genesis: g, Ops: []Op{
+			add(1, 1), start(1, fin(2, 0), ""), upd(0, fin(1, 0), f), upd(0, fin(1, 1), ""), upd(0, fin(1, 0), ""),
+			add(1, 2), start(1, fin(2, 0), ""), upd(0, fin(1, 0), f), upd(0, fin(1, 0), "")}})
+	}
+	for i, f := range []string{"StartNewRound", "ReadRound", "ReadLink"} {
+		out = append(out, Case{Kind: "fault-corpus", K: 3, Seed: uint64(30 + i), Base: b, Genesis: g, Ops: []Op{
+			add(1, 1), start(1, fin(2, 0), ""), add(0, 2), start(0, fin(1, 0), f), start(0, fin(1, 1), ""), start(0, fin(1, 0), ""),
+			add(0, 3), start(0, Ref{Kind: "unknown", Salt: 4}, f), upd(0, fin(1, 0), "")}})
+	}
+	return out
+}
+
 func corpus() []Case {
 	b := uint64(1700000000000000000)
 	g := []bool{true, true, true}
@@ -641,7 +799,10 @@ func main() {
 		"round starts (2/3 finalized path) and empty-head updates (1/3 strict) whose references are drawn from: latest / stale final " +
 		"of another chain, own chain, unknown, current, zero; 1/10 wrong self reference. Non-trivial = at least two transitions " +
 		"accepted; distinct by the whole history. Snapshots are added through StateCopy + validateSnapshot + assignNewGraphRound; " +
-		"1/4 of the starts are repeated after one more snapshot, also with the hash of the earlier attempt (must be refused)."
+		"1/4 of the starts are repeated after one more snapshot, also with the hash of the earlier attempt (must be refused). " +
+		"Kinds fault-*: the kernel sees the store through a decorator that fails one chosen call of a transition once (ReadRound, " +
+		"ReadLink, StartNewRound, UpdateEmptyHeadRound): a transition that RETURNS an error must leave RoundLinks, LINK/ROUND records " +
+		"and head references untouched (a panic = fail-stop is allowed, the state is then reloaded from the store); oracle only."
 	if c.Replay != "" {
 		var cs Case
 		c.ReplayCase(&cs)
@@ -652,9 +813,15 @@ func main() {
 	for _, cs := range corpus() {
 		run(c, cs)
 	}
+	for _, cs := range faultCorpus() {
+		run(c, cs)
+	}
 	n := c.Scale(300, 10000)
 	for i := 0; i < n; i++ {
 		run(c, genHistory(c))
+	}
+	for i := c.Scale(80, 3000); i > 0; i-- {
+		run(c, genFaultHistory(c))
 	}
 	c.Finish()
 }
